@@ -305,6 +305,189 @@ fn main() {
             }
             out.flush().unwrap();
         }
+        "stress-check" => {
+            // Real threads, no scheduler: every thread hammers one managed pool with non-blocking
+            // gets, returns, takes, retains and status calls. Windows between two critical sections
+            // that contain no `verif_point!` are invisible to the schedulers; here the OS finds
+            // them. max_size is never changed and the pool is not closed, so at rest - after all
+            // threads were joined - the theorems leave exactly one outcome: status() exact, the
+            // full capacity available, every object that left the pool detached exactly once.
+            use std::sync::{atomic::{AtomicUsize, Ordering}, Arc, Mutex};
+            struct Obj {
+                id: usize,
+                live: Arc<Mutex<std::collections::BTreeSet<usize>>>,
+            }
+            impl Drop for Obj {
+                fn drop(&mut self) {
+                    self.live.lock().unwrap().remove(&self.id);
+                }
+            }
+            struct Mgr {
+                next: AtomicUsize,
+                live: Arc<Mutex<std::collections::BTreeSet<usize>>>,
+                detached: Arc<Mutex<Vec<usize>>>,
+                max_live: Arc<AtomicUsize>,
+            }
+            impl deadpool::managed::Manager for Mgr {
+                type Type = Obj;
+                type Error = ();
+                async fn create(&self) -> Result<Obj, ()> {
+                    let id = self.next.fetch_add(1, Ordering::SeqCst);
+                    let mut l = self.live.lock().unwrap();
+                    l.insert(id);
+                    let _ = self.max_live.fetch_max(l.len(), Ordering::SeqCst);
+                    Ok(Obj { id, live: self.live.clone() })
+                }
+                async fn recycle(&self, o: &mut Obj, _: &deadpool::managed::Metrics) -> deadpool::managed::RecycleResult<()> {
+                    // every seventh object is rejected once in a while
+                    if o.id % 7 == 3 && self.next.load(Ordering::Relaxed) % 3 == 0 {
+                        return Err(deadpool::managed::RecycleError::message("scripted reject"));
+                    }
+                    Ok(())
+                }
+                fn detach(&self, o: &mut Obj) {
+                    // from here on the object is not the pool's any more (taken, removed by
+                    // retain, or about to be destroyed)
+                    self.live.lock().unwrap().remove(&o.id);
+                    self.detached.lock().unwrap().push(o.id);
+                }
+            }
+            let rounds: u64 = arg(&args, "--rounds").and_then(|s| s.parse().ok()).unwrap_or(30);
+            std::panic::set_hook(Box::new(|_| {}));
+            let mut bad = 0usize;
+            let mut first = String::new();
+            let mut total_ops = 0u64;
+            for r in 0..rounds {
+                let max = 1 + (r % 3) as usize;
+                let live: Arc<Mutex<std::collections::BTreeSet<usize>>> = Arc::default();
+                let detached: Arc<Mutex<Vec<usize>>> = Arc::default();
+                let max_live = Arc::new(AtomicUsize::new(0));
+                let pool = deadpool::managed::Pool::<Mgr>::builder(Mgr {
+                    next: AtomicUsize::new(0),
+                    live: live.clone(),
+                    detached: detached.clone(),
+                    max_live: max_live.clone(),
+                })
+                .max_size(max)
+                .build()
+                .unwrap();
+                let taken = Arc::new(AtomicUsize::new(0));
+                let zero = deadpool::managed::Timeouts { wait: Some(std::time::Duration::ZERO), create: None, recycle: None };
+                let hs: Vec<_> = (0..4u64)
+                    .map(|t| {
+                        let pool = pool.clone();
+                        let taken = taken.clone();
+                        let live = live.clone();
+                        std::thread::spawn(move || {
+                            let rt = tokio::runtime::Builder::new_current_thread().build().unwrap();
+                            let mut x = 0x9E3779B97F4A7C15u64.wrapping_mul(r * 4 + t + 1);
+                            let mut held: Vec<deadpool::managed::Object<Mgr>> = Vec::new();
+                            let mut ops = 0u64;
+                            for _ in 0..1500 {
+                                x ^= x << 13;
+                                x ^= x >> 7;
+                                x ^= x << 17;
+                                ops += 1;
+                                match x % 16 {
+                                    0..=6 => {
+                                        if let Ok(o) = rt.block_on(pool.timeout_get(&zero)) {
+                                            held.push(o);
+                                        }
+                                    }
+                                    7..=10 => {
+                                        if !held.is_empty() {
+                                            drop(held.swap_remove((x >> 8) as usize % held.len()));
+                                        }
+                                    }
+                                    11 => {
+                                        if !held.is_empty() {
+                                            let o = held.swap_remove((x >> 8) as usize % held.len());
+                                            // not the pool's any more from the moment take() is called
+                                            // (its slot is free again before Manager::detach runs)
+                                            live.lock().unwrap().remove(&o.id);
+                                            let raw = deadpool::managed::Object::take(o);
+                                            let _ = taken.fetch_add(1, Ordering::SeqCst);
+                                            drop(raw);
+                                        }
+                                    }
+                                    12 | 13 => {
+                                        let _ = pool.retain(|_, _| true);
+                                    }
+                                    14 => {
+                                        let k = x >> 9;
+                                        let _ = pool.retain(|o, _| (o.id as u64 + k) % 3 != 0);
+                                    }
+                                    _ => {
+                                        let _ = pool.status();
+                                    }
+                                }
+                            }
+                            drop(held);
+                            ops
+                        })
+                    })
+                    .collect();
+                let mut panicked = 0usize;
+                for h in hs {
+                    match h.join() {
+                        Ok(n) => total_ops += n,
+                        Err(_) => panicked += 1,
+                    }
+                }
+                // at rest
+                let at_rest = std::panic::catch_unwind(std::panic::AssertUnwindSafe(|| {
+                let mut problems: Vec<String> = Vec::new();
+                let st = pool.status();
+                let alive = live.lock().unwrap().len();
+                if st.max_size != max || st.size != alive || st.available != alive || st.waiting != 0 || st.size > max {
+                    problems.push(format!("at rest status() = {:?} but {} object(s) exist, all idle, max_size {}", st, alive, max));
+                }
+                if max_live.load(Ordering::SeqCst) > max {
+                    problems.push(format!("{} objects existed at the same time, max_size {}", max_live.load(Ordering::SeqCst), max));
+                }
+                let rt = tokio::runtime::Builder::new_current_thread().build().unwrap();
+                let mut held = Vec::new();
+                let mut answers = Vec::new();
+                for _ in 0..max + 1 {
+                    match rt.block_on(pool.timeout_get(&zero)) {
+                        Ok(o) => {
+                            answers.push("ok");
+                            held.push(o);
+                        }
+                        Err(_) => answers.push("refused"),
+                    }
+                }
+                let want: Vec<&str> = (0..max).map(|_| "ok").chain(std::iter::once("refused")).collect();
+                if answers != want {
+                    problems.push(format!("capacity probe at rest: {:?}, expected {:?}", answers, want));
+                }
+                drop(held);
+                let mut d = detached.lock().unwrap().clone();
+                d.sort();
+                let n = d.len();
+                d.dedup();
+                if d.len() != n {
+                    problems.push("an object was detached twice".into());
+                }
+                problems
+                }));
+                let mut problems = match at_rest {
+                    Ok(p) => p,
+                    Err(_) => vec!["a pool call panicked while the pool was inspected at rest (slots mutex poisoned?)".to_string()],
+                };
+                if panicked > 0 {
+                    problems.insert(0, format!("{panicked} of 4 threads ended in a panic raised inside a pool operation (no user code panics here)"));
+                }
+                if !problems.is_empty() {
+                    bad += 1;
+                    if first.is_empty() {
+                        first = format!("round {r} (max_size {max}, 4 threads x 1500 operations): {}", problems.join(" | "));
+                    }
+                }
+            }
+            writeln!(out, "stress rounds={rounds} ops={total_ops} bad={bad} first={first}").unwrap();
+            out.flush().unwrap();
+        }
         "close-race-check" => {
             // C06 on real threads: `close()` racing `resize()` and the return of an object, with
             // no scheduler in between. The windows exercised here lie *inside* what the model
